@@ -80,6 +80,8 @@ fn templates() -> Vec<Tpl> {
     }));
     t("hv2", 2, true, Box::new(|h| call("hv2", h)));
     t(".ht1", 2, true, Box::new(|h| mcall(h[0].clone(), "ht", vec![h[1].clone()])));
+    // This<T> behind and between positional parameters (function style: it takes the next argument)
+    t("hpt3", 3, true, Box::new(|h| call("hpt", h)));
     t("ht2", 2, true, Box::new(|h| call("ht", h)));
     // macros: range and body
     t("map", 3, false, Box::new(|h| E::Macro("map", b(E::List(vec![h[0].clone(), h[1].clone()])), "x".into(), vec![E::Bin("+", b(x()), b(h[2].clone()))])));
@@ -106,6 +108,7 @@ pub fn model_env() -> Env {
     env.hosts.insert("hp2".into(), Host::Typed(vec!["int", "int"]));
     env.hosts.insert("hp4".into(), Host::Typed(vec!["int", "int", "int", "int"]));
     env.hosts.insert("ht".into(), Host::Ident);
+    env.hosts.insert("hpt".into(), Host::Typed(vec!["any", "any", "any"]));
     env
 }
 
@@ -124,6 +127,11 @@ pub fn subject_ctx(env: &Env, log: &hosts::Log) -> Context<'static> {
     let l = log.clone();
     ctx.add_function("hv2", move |a: Value, c: Value| -> Result<Value, ExecutionError> {
         l.lock().unwrap().push(Ev::Call("hv2".into(), vec![MV::from_value(&a), MV::from_value(&c)]));
+        Ok(a)
+    });
+    let l = log.clone();
+    ctx.add_function("hpt", move |a: Value, This(this): This<Value>, c: Value| -> Result<Value, ExecutionError> {
+        l.lock().unwrap().push(Ev::Call("hpt".into(), vec![MV::from_value(&a), MV::from_value(&this), MV::from_value(&c)]));
         Ok(a)
     });
     // `ht` uses the This extractor: receiver if present, otherwise the first argument
